@@ -101,6 +101,11 @@ func (lrw *limitedResponseWriter) WriteHeader(statusCode int) {
 	if lrw.wroteHeader {
 		return
 	}
+	// Informational (1xx) responses precede the final response: pass them through at once
+	if statusCode >= 100 && statusCode < 200 && statusCode != http.StatusSwitchingProtocols {
+		lrw.ResponseWriter.WriteHeader(statusCode)
+		return
+	}
 	// Just record the status code, don't write it yet
 	lrw.statusCode = statusCode
 }
